@@ -282,7 +282,14 @@ func (app *EVMApp) executeKVTx(state *estate.StateDB, tx *etypes.Transaction) (*
 	if err := rlp.DecodeBytes(txData, kvData); err != nil {
 		return nil, err
 	}
-	from, _ := etypes.Sender(app.Signer, tx)
+	from, err := etypes.Sender(app.Signer, tx)
+	if err != nil {
+		return nil, err
+	}
+	// a signed transaction takes effect at most once: it must carry the sender's current nonce
+	if nonce := state.GetNonce(from); nonce != tx.Nonce() {
+		return nil, fmt.Errorf("kv tx nonce mismatch: account nonce %d, tx nonce %d", nonce, tx.Nonce())
+	}
 	state.SetNonce(from, state.GetNonce(from)+1)
 	return kvData, nil
 }
